@@ -236,6 +236,14 @@ class AppMutator(BaseMutator):
         ChangeFields), and then looks in each batch for any changes to fields
         that become unnecessary (due to field deletion).
         """
+        # Work on copies of the mutations. Pre-processing rewrites field
+        # names, attributes, and model names on the mutations it collapses,
+        # and the originals are the evolution definitions themselves, which
+        # may be processed again (for instance, when preparing and then
+        # executing an evolution).
+        orig_mutations = mutations
+        mutations = copy.deepcopy(mutations)
+
         mutation_batches = self._create_mutation_batches(mutations)
 
         # Go through all the mutation batches and get our resulting set of
@@ -251,7 +259,7 @@ class AppMutator(BaseMutator):
                 'Unable to pre-process mutations for optimization. '
                 '%s contains a mutation that cannot be smimulated.',
                 self.app_label)
-            result_mutations = mutations
+            result_mutations = orig_mutations
 
         return result_mutations
 
